@@ -62,7 +62,9 @@ def run_case(acc, case):
     npages = -(-length // dfusim.PAGE)
     busy, final = schedule(rng, 3 * npages + 2, case.get('heavy', False))
     dev = dfusim.Device(variant, pattern_seed=case['sched'], busy=busy, final_delay=final, start_error=case.get('start_error', False))
-    r = dfusim.run(fw, dev)
+    fifo = case['sched'] % 11 == 5
+    r = dfusim.run(fw, dev, via_fifo=fifo)
+    core.see(acc, 'firmware_delivery', 'named pipe' if fifo else 'regular file')
     acc['n'] += 1
     acc['ctr']['requests_seen'] += len(dev.log)
     acc['ctr']['sleeps_seen'] += len(dev.sleeps)
